@@ -25,6 +25,7 @@ from mc.checks import rules_common as R
 
 PROPERTY = "C15"
 LEVEL = "fault_enumeration"
+DETERMINISM_CASES = 1
 RULE = ("cases = 3 histories x budget variants (up --migrate: 2x2 backup/target-file variants; init: 3 settings variants x 2 x 2; layout migration: "
         "data/output present or not x ./tally absent/empty/non-empty); per case every prefix of the recorded effect log is a crash point (x torn "
         "variants half/nothing for effects that land data) and every effect is an OSError injection point; evaluations = fault runs executed on the "
